@@ -559,9 +559,17 @@ impl ParsedValue {
         key_path: &KeyPath,
     ) -> Result<Self> {
         match self {
-            ParsedValue::Default | ParsedValue::ForeignKey(_) | ParsedValue::Literal(_) => {
-                Ok(self.clone())
-            }
+            ParsedValue::Default | ParsedValue::Literal(_) => Ok(self.clone()),
+            // a resolved foreign key is the value it points to, the args apply to it too
+            ParsedValue::ForeignKey(fk) => match fk.try_borrow().as_deref() {
+                Ok(ForeignKey::Set(inner)) => inner.populate(args, foreign_key, locale, key_path),
+                Ok(ForeignKey::NotSet(..)) => Ok(self.clone()),
+                Err(_) => Err(Error::RecursiveForeignKey {
+                    locale: locale.clone(),
+                    key_path: key_path.to_owned(),
+                }
+                .into()),
+            },
             ParsedValue::Variable { key, formatter } => match args.get(&*key.name) {
                 Some(value) => Ok(value.clone()),
                 None => Ok(ParsedValue::Variable {
